@@ -80,6 +80,8 @@ where
 			match event.event_type() {
 				YAML_DOCUMENT_START_EVENT => {
 					let offset = event.start_offset();
+					#[cfg(xt_verif)]
+					crate::verif::emit("chunk_doc_start", offset, self.parser.reader_mut().captured_start_offset, self.parser.reader_mut().captured.len() as u64);
 					self.parser.reader_mut().trim_to_offset(offset);
 					self.current_document_kind = None;
 					if let Some(doc) = self.last_document.take() {
@@ -87,14 +89,20 @@ where
 					}
 				}
 				YAML_SCALAR_EVENT => {
+					#[cfg(xt_verif)]
+					crate::verif::emit("chunk_scalar", 0, 0, 0);
 					self.current_document_kind
 						.get_or_insert(DocumentKind::Scalar);
 				}
 				YAML_SEQUENCE_START_EVENT | YAML_MAPPING_START_EVENT => {
+					#[cfg(xt_verif)]
+					crate::verif::emit("chunk_collection", 0, 0, 0);
 					self.current_document_kind
 						.get_or_insert(DocumentKind::Collection);
 				}
 				YAML_DOCUMENT_END_EVENT => {
+					#[cfg(xt_verif)]
+					crate::verif::emit("chunk_doc_end", event.end_offset(), self.parser.reader_mut().captured_start_offset, self.parser.reader_mut().captured.len() as u64);
 					let chunk = self.parser.reader_mut().take_to_offset(event.end_offset());
 					self.last_document = Some(Document {
 						content: String::from_utf8(chunk).unwrap(),
@@ -102,6 +110,8 @@ where
 					});
 				}
 				YAML_STREAM_END_EVENT => {
+					#[cfg(xt_verif)]
+					crate::verif::emit("chunk_stream_end", u64::from(self.last_document.is_some()), 0, 0);
 					self.stream_ended = true;
 					return self.last_document.take().map(Ok);
 				}
@@ -187,6 +197,8 @@ where
 		// we know were freshly written, unless of course the source is broken
 		// and lies about how many bytes it read.
 		let len = self.reader.read(buf)?;
+		#[cfg(xt_verif)]
+		crate::verif::emit("chunk_read", buf.len() as u64, len as u64, self.captured.len() as u64);
 		self.captured.extend_from_slice(&buf[..len]);
 		Ok(len)
 	}
